@@ -499,6 +499,8 @@ fn content(fs: Fs, size: usize, seed: u64) -> (Vec<u8>, &'static str) {
     let c = 1 + r.below(254) as u8;
     let x = if r.chance(50) { 0 } else { c.wrapping_add(1 + r.below(200) as u8) };
     let periodic = |hit: usize| -> Vec<u8> { (0..size).map(|i| if (i + phase) % q == hit { x } else { c }).collect() };
+    // a third of the files take the shared structured shapes (uniform, two-periodic, runs, sector mixtures …)
+    if r.chance(33) { return gen_data(&mut r, size); }
     match shape {
         0 | 1 => (r.bytes(size), "random"),
         2 => (vec![c; size], "all-equal"),
